@@ -65,10 +65,8 @@ def showSObs (st : SWState) (o : Out Nat) : String :=
   let fs := (sortBy (fun a b => a.1 < b.1) o.frames).map (fun (sid, f) => showS2C sid f)
   let ds := sortBy (· < ·) (o.dones.map (fun (sid, op, r) => s!"{sid}.{op}:{showRes r}"))
   let es := sortBy (· < ·) o.events
-  let (t, l) := match st.srv.returned with
-    | some _ => ("-", "-")
-    | none => (showIds st.srv.table, toString st.srv.lastSeen)
-  s!"F=[{joinWith " " fs}] D=[{joinWith " " ds}] E=[{joinWith ";" es}] T=[{t}] L={l}"
+  let (t, l) := (showIds st.srv.table, toString st.srv.lastSeen)
+  s!"F=[{joinWith " " fs}] D=[{joinWith " " ds}] E=[{joinWith ";" es}] T=[{t}] L={l} G={srvHandlers st.srv},{srvWatchers st.srv},0"
 
 def sworldCmd (services : List (Method.Name × Method.ServiceDesc)) (st : SWState) (cmd : String) (args : List String) :
     Option (SWState × String) :=
